@@ -214,6 +214,7 @@ def run(ctx):
     jobs = {
         "states": dict(module="BulkStates", cfg="BulkStates.cfg"),
         "gen": dict(module="BulkLoad", cfg="BulkLoad_quick.cfg"),
+        "relabel": dict(module="BulkLoad", cfg="BulkLoad_relabel.cfg"),
         "sim": dict(module="BulkLoad", cfg="BulkLoad_sim.cfg", simulate="num=%d" % (12 if quick else 300), depth=6, workers=1),
         "sim4": dict(module="BulkLoad", cfg="BulkLoad_sim4.cfg", simulate="num=%d" % (6 if quick else 200), depth=5, workers=1),
         "scaled": dict(module="BulkLoad", cfg="BulkLoad_scaled.cfg", simulate="num=%d" % (1 if quick else 12), depth=4, workers=1),
@@ -249,7 +250,7 @@ def run(ctx):
     init = res["gen"].msgs.get("init", [None])[0]
     if not tbl or init is None:
         raise Inconclusive("BulkStates/BulkLoad printed no observation table / initial store")
-    streams = dedup(res["gen"].msgs.get("stream", []) + res["sim4"].msgs.get("stream", []) + res["sim"].msgs.get("stream", []), "stream")
+    streams = dedup(res["gen"].msgs.get("stream", []) + res["relabel"].msgs.get("stream", []) + res["sim4"].msgs.get("stream", []) + res["sim"].msgs.get("stream", []), "stream")
     scaled = dedup(res["scaled"].msgs.get("scaled", []), "stream")
     # predictions of the pinned-loop model: one per (stream, policy, kind)
     preds, seenp = [], set()
